@@ -186,4 +186,20 @@ def genericTimestep (mv : Moves) (q : GenericSampler) (beta : Rat) (rng : List N
   let w4 := mv.freeFlip w3
   ({ q with state := w4.state, slots := w4.slots, cutoff := c1 }, w4.rng)
 
+/-- `QmcIsingGraph::single_diagonal_step` -/
+def isingDiagStep (mv : Moves) (g : IsingSampler) (beta : Rat) (rng : List Nat) :
+    IsingSampler × List Nat :=
+  let w0 : World := { state := g.state, slots := g.slots, rng := rng }
+  let w1 := if g.heatbath then mv.heat g.ham g.cutoff beta w0 else mv.diag g.ham g.cutoff beta w0
+  ({ g with state := w1.state, slots := w1.slots, cutoff := nextCut g.cutoff (mv.count w1.slots) },
+    w1.rng)
+
+/-- `Qmc::diagonal_update` -/
+def genericDiagStep (mv : Moves) (q : GenericSampler) (beta : Rat) (rng : List Nat) :
+    GenericSampler × List Nat :=
+  let w0 : World := { state := q.state, slots := q.slots, rng := rng }
+  let w1 := if q.doHeatbath then mv.heat q.ham q.cutoff beta w0 else mv.diag q.ham q.cutoff beta w0
+  ({ q with state := w1.state, slots := w1.slots, cutoff := nextCut q.cutoff (mv.count w1.slots) },
+    w1.rng)
+
 end Qmc
